@@ -179,6 +179,9 @@ func Gen(seed int64, index int, o GenOpts) *Case {
 		default:
 			videoKind = VP9
 		}
+		if o.Profile == "e2e" && (uint64(seed)*3+uint64(index)/3)%6 == 0 {
+			videoKind = AV1 // (the end-to-end monitor has few cases: one AV1 stream in six)
+		}
 		nAudio = pick(4)
 		if o.Profile == "mv" {
 			nAudio = pick(5)
@@ -715,7 +718,7 @@ func Gen(seed int64, index int, o GenOpts) *Case {
 				if sp.Kind == AV1 && chance(0.3) {
 					vo.OBUNoSize = true
 				}
-				if sp.Kind == AV1 && (uint64(seed)*7+uint64(index)*5)%3 == 0 {
+				if sp.Kind == AV1 && ((uint64(seed)*7+uint64(index)/3*5)%3 == 0 || o.Profile == "e2e" && (uint64(seed)+uint64(index)/3)%2 == 0) { // (index%3 selects the variant in C08 / C09; the end-to-end runs have few AV1 cases)
 					vo.AV1Delimiter = true
 					c.Features["av1-temporal-delimiter"] = true
 				}
